@@ -94,13 +94,19 @@ theorem diagram_text_views (mt : Str → Str → Bool) (g : PGraph Str) (so : Bo
   | ok p =>
     rw [hp] at h
     simp only at h ⊢
+    -- a check that fails (rather than raises) found every component among the modules of the architecture
+    cases hm : diagramMissing (prefixParsed p base) g with
+    | true => rw [hm] at h; cases h
+    | false =>
+    rw [hm] at h
     obtain ⟨h1, _, _, _, h5⟩ := (Pta.C07.aggregated_text_items mt g _).2 text h
     refine ⟨?_, h1, h5⟩
     rw [h1, ← Pta.Agg.join_aggMessages]
 
 /-- **permuted diagram lines.** Two files `noise / @startuml / lines / @enduml / noise` whose line lists are permutations of
     each other (raw lines without newline and `@`, as in `C15.diagram_text_perm`), any base module, any graph, both modes:
-    (1) one check raises `k` iff the other raises `k` (both the parsing error, or both the lookup error of a generated rule);
+    (1) one check raises `k` iff the other raises `k` (both the parsing error, or both the lookup error: of the check that
+        every component is a module, or of a generated rule);
     (2) same class, the same multiset of per-rule messages, the same multiset of message lines (when the checks fail,
         these are the blocks / lines of the two texts: `diagram_text_views`, `diagram_message_text_lines_perm`). -/
 theorem diagram_message_lines_perm (mt : Str → Str → Bool) (g : PGraph Str) (so : Bool) (base : Option Str)
@@ -123,7 +129,11 @@ theorem diagram_message_lines_perm (mt : Str → Str → Bool) (g : PGraph Str) 
     obtain ⟨hp', hq', hm', hd'⟩ := Pta.OrdDT.prefix_ok p q base hp hq hm hd
     obtain ⟨h1, _, h3, h4, h5⟩ := same_outcome_of_perm mt g _ _ (Pta.OrdDT.rules_text_perm mt g so _ _ hp' hq' hm' hd')
       (Pta.OrdDT.applyAllText_err_kind mt g so _ hp') (Pta.OrdDT.applyAllText_err_kind mt g so _ hq')
-    exact ⟨h1, h3, h4, h5⟩
+    -- the check of the repair of F-C13c sees the module SET only
+    rw [Pta.Repair.diagramMissing_congr _ _ g hm']
+    cases diagramMissing (prefixParsed q base) g with
+    | true => exact ⟨fun _ => Iff.rfl, rfl, h4, h5⟩
+    | false => exact ⟨h1, h3, h4, h5⟩
 
 /-- … for the lines of the literal texts: if both checks fail with texts `t`, `t'` and no message line contains a newline
     (no module name does), the lines of `t'` are a permutation of the lines of `t` -/
